@@ -186,7 +186,7 @@ impl Prop for C14 {
                             if ch > 0 {
                                 out.add("child_lines_seen", ch as u64);
                             }
-                            if k == 0 && idx < 2 {
+                            if out.sample.is_none() && idx < 32 {
                                 out.sample = Some(json!({"generator": kind, "input": short(&input, 240), "logical lines": nl, "child lines": ch, "parser passes": p.passes}));
                             }
                         }
